@@ -131,6 +131,62 @@ def claim2___KIND__(first: int, k1: int, k2: int) -> bool:
 '''
 
 
+CRONRACE = r'''
+from datetime import datetime, UTC
+from engine.hsupport import *
+from engine import standins, coop
+import pynenc.trigger.base_trigger as bt
+import pynenc.trigger.mem_trigger as mt
+import pynenc.trigger.sqlite_trigger as st
+from pynenc.trigger.conditions.cron import CronCondition
+standins.install_sync_history()
+LAST_DETAIL = None
+ALL = {"_should_trigger_cron_condition", "get_last_cron_execution", "store_last_cron_execution"}
+mt.threading = coop.CoopThreading()
+coop.install_sqlite_standin()
+coop.yieldify(bt.BaseTrigger, ["_should_trigger_cron_condition"], all_names=ALL)
+coop.yieldify(mt.MemTrigger, ["get_last_cron_execution", "store_last_cron_execution"], all_names=ALL)
+coop.yieldify(st.SQLiteTrigger, ["get_last_cron_execution", "store_last_cron_execution"], all_names=ALL, sql=True)
+
+def first_tick(kind, has_last, first, slices):
+    """two trigger loops evaluate the same cron condition at the same scheduled instant"""
+    global LAST_DETAIL
+    reset_uuid()
+    db = fresh_db_path("c13cron") if kind == "sqlite" else None
+    apps = [mk_app(kind, app_id="c13cron", db_path=db)]
+    apps.append(mk_app(kind, app_id="c13cron", db_path=db) if kind == "sqlite" else apps[0])   # two processes / two threads of one process
+    cond = CronCondition("*/5 * * * *")
+    for a in apps:
+        a.trigger.register_condition(cond)
+    now = datetime(2024, 1, 1, 12, 5, 0, tzinfo=UTC)
+    if has_last:
+        apps[0].trigger.store_last_cron_execution(cond.condition_id, datetime(2024, 1, 1, 12, 0, 0, tzinfo=UTC))
+    actors = [coop.Actor(f"loop{i}", a.trigger._should_trigger_cron_condition__gen(cond, now)) for i, a in enumerate(apps)]
+    res = coop.run_schedule(actors, first, slices)
+    coop.close_all_connections()
+    fired = [x.result is not None for x in actors]
+    errs = [repr(x.error) for x in actors if x.error is not None]
+    LAST_DETAIL = {"kind": kind, "has_last_execution": has_last, "fired": fired, "errors": errs, "schedule": res["schedule"]}
+    return not errs and sum(fired) == 1
+
+def cron_tick_with_last___KIND__(first: int, k1: int, k2: int) -> bool:
+    """
+    pre: 0 <= first <= 1 and 0 <= k1 <= 40 and 0 <= k2 <= 40
+    post: _
+    """
+    with NoTracing():
+        return first_tick(["mem", "sqlite"][__KIND__], True, first, [k1, k2])
+
+def finding_first_tick___KIND__(first: int, k1: int, k2: int) -> bool:
+    """
+    pre: 0 <= first <= 1 and 0 <= k1 <= 40 and 0 <= k2 <= 40
+    post: _
+    """
+    with NoTracing():
+        return first_tick(["mem", "sqlite"][__KIND__], False, first, [k1, k2])
+'''
+
+
 def _key_from_replay(args, kwargs, replay_out):
     m = re.search(r"'why': '([^']+)'", replay_out or "")
     return m.group(1) if m else "C13:unclassified"
@@ -146,10 +202,17 @@ def run(ctx: Ctx) -> None:
     # canary: a store lock that never blocks must let both claimers win within the same bounds
     src = CLAIM.replace("__NEVER__", "True").replace("__KIND__", "0")
     ctx.ch_batch("c13claim_canary", src, [Cond("claim2_0", "refute", 300)])
-    ctx.functions_encoded += ["BaseTrigger.trigger_loop_iteration/emit_event/record_valid_conditions/get_valid_conditions/clear_valid_conditions",
+    for kind, name in ((0, "mem"), (1, "sqlite")):
+        ctx.ch_batch(f"c13cronrace_{name}", CRONRACE.replace("__KIND__", str(kind)), [
+            Cond(f"cron_tick_with_last_{kind}", "confirm", 900, keyfn=lambda a, k: f"C13:cron:tick-fired-by-two-loops:{name}"),
+            Cond(f"finding_first_tick_{kind}", "finding", 600, key="C13:cron:first-tick-fired-by-two-loops",
+                 what="two trigger loops evaluate a cron condition that has never fired at the same scheduled instant: store_last_cron_execution(expected=None) is unconditional, both fire")])
+    ctx.bounds["cron race"] = "2 concurrent evaluations of one cron condition at a scheduled instant, 2 preemptions with slices 0..40; with a previous execution on record (verify) and without (known finding); in-memory (two threads) and SQLite (two processes)"
+    ctx.functions_encoded += ["BaseTrigger._should_trigger_cron_condition + Mem/SQLite get/store_last_cron_execution (line / statement-level twins)",
+                              "BaseTrigger.trigger_loop_iteration/emit_event/record_valid_conditions/get_valid_conditions/clear_valid_conditions",
                               "TriggerDefinition.should_trigger/generate_trigger_run_ids/get_arguments", "ContextTypeArgumentProvider.get_arguments",
                               "MemTrigger/SQLiteTrigger.claim_trigger_run (line / statement-level twins)"]
     ctx.bounds["occurrences"] = "triggers: single condition (default logic), OR of two, AND of two; 0-2 pending occurrences per condition with distinct payloads; 1-2 loop iterations with an optional late occurrence; both stores"
     ctx.bounds["claims"] = "2 concurrent claimers of one trigger run id, 2 preemptions with slices 0..12, both stores"
     ctx.stubs += ["trigger.execute_task replaced by a recorder (the launch itself is C07/C03's subject)", "CoopLock for MemTrigger's locks, sqlite timeout=0"]
-    ctx.assumptions += ["the first cron tick ever (no last execution stored) can be fired by two loops at once on both stores: store_last_cron_execution treats expected=None as unconditional (recorded as known finding, not exercised here)"]
+    ctx.assumptions += ["the first cron tick ever (no last execution stored) can be fired by two loops at once: listed known finding, reproduced by the cron-race part"]
